@@ -140,4 +140,19 @@ CLAIMED['C07'] = dict(
          'grow and a slot is written by another thread only between its own claim and publication.',
     technique='deductive verification: bit-vector lemmas + step contracts under an interference (rely) model, CBMC on mechanically lowered real code',
     design='§6 C07, §3.4')
+CLAIMED['C01'] = dict(
+    text='Kernel only (the property quantifies over interleavings): mutex::try_lock, mutex::lock (retry loop and the `again` back-edge by '
+         'the Hoare loop rule, yield/sleep as stubs, under an interference model of the owner word), do_mutex_unlock, mutex::unlock, '
+         'recursive_mutex::lock/try_lock/unlock, spinlock::lock/try_lock/unlock and ticket_spinlock::lock/unlock are lowered from /repo on '
+         'every run.  Proved: try_lock returns 0 exactly when this call changed owner null -> CURRENT; lock returns 0 only when the caller is '
+         'the owner at return, a failed lock never acquired through its own CAS, splock is released on every path and the waiter is queued '
+         'while holding it; unlock by a non-owner changes nothing, otherwise the owner word is handed to the head waiter (null if none / '
+         'contending) BEFORE exactly that waiter is woken; the recursive depth arithmetic releases the mutex exactly at depth 0; spinlock '
+         'lock/try_lock succeed exactly when this call flipped the flag false -> true; ticket lock returns only when its own ticket is served '
+         'and unlock advances serv by one.',
+    note=TRUST + ' NOT decided: mutual exclusion across sleeping waiters as a whole-history property, timeouts/interrupts racing with the '
+         'hand-off (the -1 paths may coincide with a hand-off), standby-queue wake-ups, qspinlock; sequentially consistent atomics; the rely on '
+         'other threads is justified by the same contracts (closed world); invariant-per-step => all interleavings is a paper argument.',
+    technique='deductive verification: step contracts under an interference (rely) model + Hoare loop rule, CBMC on mechanically lowered real code',
+    design='§6 C01, §3.4')
 NA = {}
